@@ -163,8 +163,10 @@ def check_case(res, cid, spec, steps, script, gs_lines, sel_lines, stats):
                     expected[kk] = [0.0] * outs
                 for i in range(prev["nneeded"]):
                     expected[key_of(prev["needed"][i * d:(i + 1) * d])] = [0.0] * outs
-            if st.exc is not None and st.exc[0] == "hang" and not gl.still_hangs(vlib.build_driver("tsgdrv"), script, st.cmd, os.path.join(vlib.BUILD, "work", PID)):
-                stats["slow_calls_skipped"] = stats.get("slow_calls_skipped", 0) + 1     # completed under the long limit (or not re-run): slow, not a hang
+            if st.exc is not None and st.exc[0] == "hang":
+                # running time / termination is not part of this statement (C08's clause): counted, the case ends
+                stats["slow_calls_skipped"] = stats.get("slow_calls_skipped", 0) + 1
+                return
             elif st.exc is not None and st.exc[0] not in ("invalid_argument", "runtime_error"):
                 viol(("no-return:" if st.exc[0] == "hang" else "unexpected-exception:") + t[0], "%s raised %s" % (st.cmd, st.exc))
             if t[0] == "refsurp" and "scale:" in t and st.exc is not None and "scale_correction" in st.exc[1]:
@@ -462,7 +464,7 @@ def run(res, tier, seed, replay_script=None):
     if not ok_ext and not res.violations:
         res.violation("extraction", "extraction of the model failed", {"kind": "proof-break", "log": elog[-2000:]}, no_input=True)
 
-    res.coverage["slow_calls_completed_under_the_long_limit_skipped"] = stats.get("slow_calls_skipped", 0)
+    res.coverage["calls_not_returning_within_the_case_limit_not_judged"] = stats.get("slow_calls_skipped", 0)
     res.coverage["cases_cut_short_by_the_case_limit"] = stats.get("cases_cut_short_by_the_case_limit", 0)
     res.coverage.update({
         "evaluations": len(cases) + len(ucases), "distinct_nontrivial": nontrivial,
